@@ -17,6 +17,9 @@ const T_END: u8 = 2;
 
 /// scripted stream: yields its sequence numbers 0,1,2,.. at `Ready` tags; must never be polled after `None`
 pub struct SStream<const N: usize> {
+    id: u8,
+    /// script entries actually used (<= N): after `len` answers the source ends
+    len: usize,
     tags: [u8; N],
     pos: usize,
     next_seq: u8,
@@ -32,14 +35,14 @@ impl<const N: usize> SStream<N> {
             tags[i] = t;
             i += 1;
         }
-        SStream { tags, pos: 0, next_seq: 0, ended: false }
+        SStream { id: 0, len: N, tags, pos: 0, next_seq: 0, ended: false }
     }
     /// number of items this source will ever deliver
     fn total(&self) -> u8 {
         let mut n = 0;
         let mut i = 0;
         while i < N {
-            if self.tags[i] == T_END {
+            if i >= self.len || self.tags[i] == T_END {
                 break;
             }
             if self.tags[i] == T_READY {
@@ -50,12 +53,24 @@ impl<const N: usize> SStream<N> {
         n
     }
 }
-impl<const N: usize> Stream for SStream<N> {
+/// the same script as a fallible stream (for `TaggedSource`, whose item type is fixed to `Result<T, io::Error>`)
+pub struct SResult<const N: usize>(SStream<N>);
+impl<const N: usize> Stream for SResult<N> {
     type Item = Result<u8, io::Error>;
+    fn poll_next(self: Pin<&mut Self>, cx: &mut Context<'_>) -> Poll<Option<Self::Item>> {
+        match Pin::new(&mut self.get_mut().0).poll_next(cx) {
+            Poll::Ready(Some((_, s))) => Poll::Ready(Some(Ok(s))),
+            Poll::Ready(None) => Poll::Ready(None),
+            Poll::Pending => Poll::Pending,
+        }
+    }
+}
+impl<const N: usize> Stream for SStream<N> {
+    type Item = (u32, u8);
     fn poll_next(self: Pin<&mut Self>, _cx: &mut Context<'_>) -> Poll<Option<Self::Item>> {
         let this = self.get_mut();
         assert!(!this.ended, "C15 a source was polled again after it had ended");
-        if this.pos >= N {
+        if this.pos >= this.len {
             this.ended = true;
             return Poll::Ready(None);
         }
@@ -64,7 +79,7 @@ impl<const N: usize> Stream for SStream<N> {
         if t == T_READY {
             let s = this.next_seq;
             this.next_seq += 1;
-            Poll::Ready(Some(Ok(s)))
+            Poll::Ready(Some((this.id as u32, s)))
         } else if t == T_PEND {
             Poll::Pending
         } else {
@@ -74,33 +89,39 @@ impl<const N: usize> Stream for SStream<N> {
     }
 }
 
-type Tagged<const N: usize> = TaggedSource<u8, SStream<N>>;
-
+/// `MergeSource` is generic in its item type: the round-robin / removal / cursor logic is checked on
+/// plain `(sender, seq)` items — `io::Error`'s drop glue (needed only by `TaggedSource`) makes CBMC run
+/// out of memory and is irrelevant to the merge logic. `TaggedSource` is checked on its own below.
 fn merge_check<const K: usize, const N: usize>(polls: usize) {
+    merge_check_lens::<K, N>([N; K], polls)
+}
+/// `lens[i]` = script length of source i (sources may differ in length; 0 = ends at its first poll)
+fn merge_check_lens<const K: usize, const N: usize>(lens: [usize; K], polls: usize) {
     let mut totals = [0u8; K];
-    let mut srcs: Vec<Pin<Box<Tagged<N>>>> = Vec::with_capacity(K);
+    let mut srcs: Vec<Pin<Box<SStream<N>>>> = Vec::with_capacity(K);
     let mut i = 0;
     while i < K {
-        let s = SStream::<N>::sym();
+        let mut s = SStream::<N>::sym();
+        s.id = i as u8;
+        s.len = lens[i];
         totals[i] = s.total();
-        srcs.push(Box::pin(TaggedSource::verif_new(i as u32, Box::pin(s))));
+        srcs.push(Box::pin(s));
         i += 1;
     }
-    let mut m = MergeSource::<Result<(u32, u8), io::Error>, Tagged<N>>::verif_new(srcs);
+    let mut m = MergeSource::<(u32, u8), SStream<N>>::verif_new(srcs);
     let mut cx = Context::from_waker(Waker::noop());
     let mut seen = [0u8; K]; // next expected sequence number per sender
     let mut ended = false;
     let mut k = 0;
     while k < polls {
         match Pin::new(&mut m).poll_next(&mut cx) {
-            Poll::Ready(Some(Ok((id, seq)))) => {
+            Poll::Ready(Some((id, seq))) => {
                 assert!(!ended, "C15 merged stream produced an item after it had ended");
                 let id = id as usize;
                 assert!(id < K, "C15 item tagged with an unknown sender");
                 assert!(seq == seen[id], "C15 a sender's items were reordered, repeated or lost");
                 seen[id] += 1;
             }
-            Poll::Ready(Some(Err(_))) => assert!(false, "C15 unexpected error item"),
             Poll::Ready(None) => {
                 // ends exactly when every source has delivered everything and ended
                 let mut j = 0;
@@ -118,14 +139,56 @@ fn merge_check<const K: usize, const N: usize>(polls: usize) {
         k += 1;
     }
     assert!(ended, "C15 merged stream did not end although every source ended");
-    cov!(seen[0] >= 1 && seen[K - 1] >= 1, "items from first and last sender");
-    cov!(totals[0] == 0 && seen[K - 1] as usize == N, "one sender empty, another full");
+    cov!(seen[0] >= 1 && (lens[K - 1] == 0 || seen[K - 1] >= 1), "items from first and last sender");
+    cov!(k >= 3, "at least three polls before the end");
     core::mem::forget(m);
 }
 
 //@ heavy=1
 harness!(c15_merge_2x2, 8, { merge_check::<2, 2>(7); });
+// three sources of different lengths: the removal of several ended sources in one round with a
+// pending survivor (cursor fix-up) needs at least three sources
+//@ heavy=1
+harness!(c15_merge_3_lens_2_1_0, 8, { merge_check_lens::<3, 2>([2, 1, 0], 6); });
+//@ heavy=1 tier=thorough
+harness!(c15_merge_3_lens_1_2_1, 8, { merge_check_lens::<3, 2>([1, 2, 1], 7); });
 //@ heavy=1 tier=thorough
 harness!(c15_merge_3x2, 10, { merge_check::<3, 2>(10); });
 //@ heavy=1 tier=thorough
 harness!(c15_merge_2x3, 10, { merge_check::<2, 3>(9); });
+
+// TaggedSource: every item of the inner stream is passed through, in order, with the sender's tag
+//@ heavy=1
+harness!(c15_tagged_source, 6, {
+    let inner = SStream::<3>::sym();
+    let total = inner.total();
+    let id: u32 = any();
+    let mut t = TaggedSource::<u8, SResult<3>>::verif_new(id, Box::pin(SResult(inner)));
+    let mut cx = Context::from_waker(Waker::noop());
+    let mut seen = 0u8;
+    let mut ended = false;
+    let mut k = 0;
+    while k < 4 {
+        match Pin::new(&mut t).poll_next(&mut cx) {
+            Poll::Ready(Some(Ok((tag, seq)))) => {
+                assert!(tag == id, "C15 TaggedSource: wrong sender tag");
+                assert!(seq == seen, "C15 TaggedSource: item lost, repeated or reordered");
+                seen += 1;
+            }
+            Poll::Ready(Some(Err(e))) => {
+                core::mem::forget(e);
+                assert!(false, "C15 TaggedSource: unexpected error item");
+            }
+            Poll::Ready(None) => {
+                assert!(seen == total, "C15 TaggedSource ended before the inner stream's items were delivered");
+                ended = true;
+                break;
+            }
+            Poll::Pending => {}
+        }
+        k += 1;
+    }
+    assert!(ended, "C15 TaggedSource did not end");
+    cov!(seen == 3, "three items");
+    core::mem::forget(t);
+});
